@@ -467,6 +467,11 @@ func (ed *economicsData) ComputeGasUsedAndFeeBasedOnRefundValue(tx process.Trans
 			gasLimit := ed.ComputeGasLimit(tx)
 
 			gasLimitWithBuiltInCost := cost + gasLimit
+			// the gas used and the fee can not exceed what the sender provided
+			if tx.GetGasLimit() < gasLimitWithBuiltInCost {
+				return tx.GetGasLimit(), ed.ComputeTxFee(tx)
+			}
+
 			txFee := ed.ComputeTxFeeBasedOnGasUsed(tx, gasLimitWithBuiltInCost)
 
 			// transaction will consume all the gas if sender provided too much gas
